@@ -16,6 +16,7 @@ pub mod c14;
 pub mod c15;
 pub mod c16;
 pub mod c17;
+pub mod c18;
 pub mod c19;
 pub mod evt;
 pub mod smoke;
@@ -38,6 +39,7 @@ pub fn dispatch(a: &ShardArgs) -> Result<(), String> {
         "c15" => c15::run(a),
         "c16" => c16::run(a),
         "c17" => c17::run(a),
+        "c18" => c18::run(a),
         "c19" => c19::run(a),
         "smoke" => smoke::run(a),
         other => Err(format!("unknown check {other}")),
